@@ -17,7 +17,7 @@
 //
 // For every `expr` the harness prints
 //   expr <text>
-//   parse ok <prefix form>   |  parse err:<kind>          kind: empty-bracket empty-operand unknown-symbol other
+//   parse ok <prefix form>   |  parse err:<kind>          kind: empty-bracket unbalanced empty-operand unknown-symbol other
 //   type <scalar|vector|tensor> | type err                (type of the Variant returned by toC())
 //   toC <s0> | <s1> | ...                                 (only if toC() did not throw)
 //   value <r0> <r1> ... | value err                       (interpreter, exact rationals p/q, or inf -inf nan)
@@ -28,11 +28,11 @@
 // observed instead of killing the harness.
 //
 // The model prints the same lines with these differences (see /verif/sim/diff_expr.py):
-//   parse err:hang / parse err:crash      where the real parser hangs / dies        (harness: `hang`, `crash 6`)
-//   type err:crash                         where toC() dereferences NULL              (harness: `crash 11`)
 //   value err:<kind>                       div0 | opaque | random | range: no rational value (model abstains)
-//   compiled <c0> <c1> ...                 per component a rational or err:<kind>; err:int-trunc = the C text
-//                                          performs a truncating int/int division, err:int-div0 = int/int by 0
+//   compiled <c0> <c1> ...                 per component a rational or err:<kind> (div0 opaque random range);
+//                                          err:int-trunc / err:int-div0 (the C text performs an int/int division)
+//                                          are never printed for emitted text since /repo ad91e0f
+// Since /repo 461b1b3 the real parser neither hangs nor dies: `hang` / `crash` lines are always disagreements.
 //   selfcheck abs-mismatch                 (never printed) parseC(render e) differs from abs e
 //
 // build: /verif/harness/build_harness.sh /verif/harness/h_parser.cpp /verif/.work/bin/h_parser
@@ -156,6 +156,8 @@ static string prefixForm(FunctionNode *n)
 static string errKind(const string &msg)
 {
   if (msg.find("Empty bracket!") != string::npos) return "empty-bracket";
+  // (the unknown-symbol message also mentions unbalanced brackets as a possible reason)
+  if (msg.find("Unbalanced brackets in expression") != string::npos) return "unbalanced";
   if (msg.find("empty expression") != string::npos) return "empty-operand";
   if (msg.find("is neither a defined symbol nor a number") != string::npos) return "unknown-symbol";
   return "other";
